@@ -69,6 +69,28 @@ def R1_tolerance_units(ctx):
             n += 1
             v = ut.tm.operand(c.args[1], c.bb)
             tag = ut.tag(v)
+            # ... measured to the point the r-tree ranks candidates by (PointDistance::distance_2: the centroid of the record's
+            # geometry), between that point and the query coordinate: a tolerance tested against another point of the edge
+            # accepts far candidates and rejects near ones although the ranking is right
+            vt = ut.tm.operand(c.args[1], c.bb)
+            with no_inline():
+                vt_ = clean(Terms(cb).operand(c.args[1], c.bb))
+            hv = [x for x in subterms(clean(vt)) if x[0] == "call" and x[1] == HV + "coord_distance_meters"]
+            if not hv:
+                # through the helper record_distance_meters(record, coord)
+                for x in subterms(vt_):
+                    if x[0] == "call" and x[1] in F.bodies and x[1] != HV + "coord_distance_meters":
+                        hb_ = F.bodies[x[1]]
+                        inner = [y for y in subterms(clean(Terms(hb_).return_term())) if y[0] == "call" and y[1] == HV + "coord_distance_meters"]
+                        hv += [substitute_args(y, x[2]) for y in inner]
+            hv = sorted(set(hv), key=repr)
+            okpt = len(hv) == 1
+            if okpt:
+                a0, a1 = hv[0][2]
+                rec_pts = [q for q in subterms(a0) if q[0] == "call" and q[1].endswith("::centroid") and len(q[2]) == 1 and q[2][0][0] == "field" and q[2][0][2] == "geometry"]
+                others = [q for q in subterms(a0) if q[0] == "call" and re.search(r"::(envelope|center|bounding_rect|first|last|lower|upper|start_point|end_point)$", q[1].split("{")[0])]
+                okpt = len(rec_pts) == 1 and not others and contains(a1, lambda q: q == ("arg", 1)) and not contains(a1, lambda q: q[0] == "call" and q[1].endswith("::centroid"))
+            ctx.check(okpt, "edge:tolerance-measured-to-ranking-point:%s" % short_fn_name(p), "the distance tested against the tolerance is not haversine(centroid(record.geometry), query coordinate) — the point PointDistance::distance_2 ranks by: %s" % (short(hv[0])[:160] if hv else "no haversine distance found"), c.where(), detail="haversine(centroid(record.geometry), coord)")
             ctx.check(tag == METERS, "edge:compared-distance-in-meters:%s" % short_fn_name(p), "the value handed to within_tolerance is %s (unit %s), not a great-circle distance in meters: the r-tree's squared coordinate distance is not comparable with a tolerance in meters" % (short(nosite(deep_strip(v)))[:120], short(tag) if tag else "unknown"), c.where(), detail="tag = Meters")
     ctx.check(n >= 1, "edge:call-sites", "within_tolerance is never called", wt.where())
     rows = [r for r in table(wt) if r.end == "return"]
@@ -295,7 +317,7 @@ def R3_no_partial_write(ctx):
     for c in adds:
         role = "origin" if "origin" in c.func["method"] else "destination"
         v = etm.operand(c.args[1], c.bb)
-        sv = nosite(deep_strip(v))
+        sv = norm_adaptors(F, nosite(deep_strip(v)))
         ss = [x for x in calls_in(sv) if x[1] == E + "edge_rtree_input_plugin::search"]
         okc = len(ss) == 1 and contains(ss[0][2][0], lambda s: s[0] == "call" and s[1].endswith("get_%s_coordinate" % role))
         ctx.check(okc, "edge:%s:match-of-own-coordinate" % role, "the %s edge written is not the search result of the %s coordinate" % (role, role), c.where(), detail="search(%s coord)" % role)
@@ -330,6 +352,14 @@ def none_is_err(body, call):
     tm = Terms(body)
     st = nosite(deep_strip(tm.call_term(call.term, call.bb)))
     seen = False
+    # the function's value is `found.ok_or_else(err)` itself: None is an Err by construction
+    rt = nosite(tm.return_term())
+    alts = list(rt[1]) if rt[0] == "phi" else [rt]
+    for a in alts:
+        while a[0] == "mut":
+            a = unmut(a)
+        if a[0] == "call" and re.search(r"Option::<T>::ok_or(_else)?$", a[1].split("{")[0]) and nosite(deep_strip(a[2][0])) == st:
+            seen = True
     for r in table(body, max_paths=20000):
         if r.end != "return":
             continue
